@@ -83,6 +83,10 @@ FIXED = [
       "C15|split_run_differs|driver=GrandCanonical|split=zero_first|what=observer_calls"]),
     ("C20", "f54fa68", "no driver ever delivered on_cell_changed",
      ["C20|cell_change_not_notified|driver=Isobaric", "C20|cell_change_not_notified|driver=Isotension"]),
+    ("C11", "03ee56f", "m + (m + m) and m + m * 2 returned a plain CompositeMove (BaseMove.__add__ compared type(composite_move_type) with type(other)): a composite of n displacement moves built with the other parenthesisation could displace one particle twice and reported no count",
+     ["C11|composite_of_displacement_moves_without_guarantees|driver=Canonical|move=composite_disp|constraints=none",
+      "C11|composite_of_displacement_moves_without_guarantees|driver=GrandCanonical|move=composite_disp|constraints=none",
+      "C11|composite_of_displacement_moves_without_guarantees|driver=Isobaric|move=composite_disp|constraints=FixAtoms"]),
     ("C07", "448f550", "Isobaric/Isotension built with default_displacement_move= on an empty box (N = 0) raised ZeroDivisionError in set_default_probability (1/(1+1/N)): the simulation and its restart file could not be created",
      ["C07|cannot_build_with_restart_file|driver=Isobaric|type=ZeroDivisionError", "C07|cannot_build_with_restart_file|driver=Isotension|type=ZeroDivisionError"]),
     ("C07", "1d8072d", "restart file written through MonteCarlo.to_dict (alias bound at class creation): subclass settings missing, Isobaric/Isotension.from_dict TypeError; ForceBias could not be written", []),
